@@ -9,9 +9,10 @@
 (* Fields are symmetric in the law, so the model carries one scalar "s",   *)
 (* one list "l" and one boolean "b"; the harness instantiates the pattern  *)
 (* for each of the 23 scalar, 7 list and 1 boolean fields of Config.       *)
-(* Lists have three elements on purpose: a decoded JSON array of three     *)
-(* elements has spare capacity, so a merge that appends to a parent's list *)
-(* in place (aliasing through the loader's cache) becomes observable.      *)
+(* Even nodes carry three list elements and odd nodes one, on purpose: a   *)
+(* decoded JSON array of three elements has spare capacity for one more,   *)
+(* so a merge that appends a child's single element to a parent's list in  *)
+(* place (aliasing through the loader's cache) becomes observable.         *)
 (***************************************************************************)
 EXTENDS TargetMerge, TLC, Json, Integers
 
@@ -37,7 +38,7 @@ Patterns == 0..3   \* 0 nothing, 1 scalar, 2 list, 3 scalar+list+bool
 Desc(n, inh, p) ==
   [ inh |-> inh,
     sc  |-> [f \in {"s"} |-> IF p \in {1, 3} THEN Names[n] ELSE Unset],
-    li  |-> [f \in {"l"} |-> IF p \in {2, 3} THEN <<Names[n] \o ".1", Names[n] \o ".2", Names[n] \o ".3">> ELSE <<>>],
+    li  |-> [f \in {"l"} |-> IF p \in {2, 3} THEN (IF n % 2 = 0 THEN <<Names[n] \o ".1", Names[n] \o ".2", Names[n] \o ".3">> ELSE <<Names[n] \o ".1">>) ELSE <<>>],
     bo  |-> [f \in {"b"} |-> p = 3],
     p   |-> p ]
 
